@@ -166,6 +166,9 @@ def _minimize_local_energy(L, R, W, Astart, numiter: int):
     """
     Minimize single-site local energy by Lanczos iteration.
     """
+    # the Krylov subspace cannot exceed the dimension of the local problem
+    # (additional Lanczos iterations would only amplify rounding noise)
+    numiter = min(numiter, Astart.size)
     w, u_ritz = eigh_krylov(
         lambda x: apply_local_hamiltonian(L, R, W, x.reshape(Astart.shape)).reshape(-1),
             Astart.reshape(-1), numiter, 1)
